@@ -263,8 +263,19 @@ impl<'a> InputGen<'a> {
             Ctx::Map => unreachable!(),
         };
         let _ = r;
-        let kind = rng.below(8);
+        let kind = rng.below(9);
         match kind {
+            8 => {
+                // a nested list that is not a list: the comma between its first two items is missing
+                let cands: Vec<usize> = items.iter().enumerate().filter(|(_, i)| i.delim < 10 && names.contains(&name_string(&i.name)) && matches!(&i.kind, Kind::List(inner) if inner.len() >= 2 && !inner[1].name.trim_start().starts_with("::"))).map(|(k, _)| k).collect();
+                // (a second item that starts with `::` would join the first one into a longer, valid path)
+                if cands.is_empty() {
+                    return None;
+                }
+                let k = *rng.pick(&cands);
+                items[k].delim += 10;
+                Some("garbled-nested-list")
+            }
             7 => {
                 // an item inside a list of bare words takes another form (path lists, word-only structs)
                 let cands: Vec<usize> = items.iter().enumerate().filter(|(_, i)| matches!(&i.kind, Kind::List(inner) if !inner.is_empty() && inner.iter().all(|x| x.kind == Kind::Word))).map(|(k, _)| k).collect();
